@@ -93,6 +93,17 @@ func (q *fwdQueue) late() bool {
 	return false
 }
 
+func (q *fwdQueue) dueAfterExpiry() bool {
+	q.mu.Lock()
+	defer q.mu.Unlock()
+	for i, d := range q.due {
+		if i < len(q.exp) && d.After(q.exp[i]) {
+			return true
+		}
+	}
+	return false
+}
+
 func (q *fwdQueue) ranCount() int {
 	q.mu.Lock()
 	defer q.mu.Unlock()
@@ -132,7 +143,7 @@ func genTimer(seed uint64, n int, path string) {
 		r := root.Fork()
 		out.Line("case", strconv.Itoa(i), "timer")
 		if i == 0 {
-			iters := 200000
+			iters := 100000
 			if n > 100 {
 				iters = 2000000
 			}
@@ -176,6 +187,55 @@ func queueStress(n, spinUs int) int64 {
 	return lost
 }
 
+// queueBurst is the second shape: one task due in 100 ms followed by a burst of zero-delay pushes while Run
+// is busy handing tasks to the worker.  Some of the burst goes through pushInternal's fallback branch
+// while Run is already waiting for the 100 ms head: Run is woken, must put that head back on the heap
+// and look again.  Returns (delayed tasks that never ran within 5 s, burst tasks that never ran, delayed
+// tasks that ran before their time).
+func queueBurst(reps, burst int) (lostDelayed, lostBurst, early int64) {
+	var wg sync.WaitGroup
+	sem := make(chan struct{}, 8)
+	for i := 0; i < reps; i++ {
+		wg.Add(1)
+		sem <- struct{}{}
+		go func(i int) {
+			defer wg.Done()
+			defer func() { <-sem }()
+			q := queue.NewDelayed(queue.DelayQueueBuffer(0))
+			stop := make(chan struct{})
+			defer close(stop)
+			go q.Run(stop)
+			time.Sleep(time.Duration(200+37*(i%5)) * time.Microsecond) // let Run park
+			delayedDone := make(chan time.Time, 1)
+			due := time.Now().Add(100 * time.Millisecond)
+			q.PushDelayed(func() error { delayedDone <- time.Now(); return nil }, 100*time.Millisecond)
+			var ran int64
+			for k := 0; k < burst; k++ {
+				q.PushDelayed(func() error { atomic.AddInt64(&ran, 1); return nil }, 0)
+			}
+			select {
+			case at := <-delayedDone:
+				if at.Before(due) {
+					atomic.AddInt64(&early, 1)
+				}
+			case <-time.After(5 * time.Second):
+				atomic.AddInt64(&lostDelayed, 1)
+			}
+			deadline := time.Now().Add(5 * time.Second)
+			for atomic.LoadInt64(&ran) < int64(burst) && time.Now().Before(deadline) {
+				time.Sleep(time.Millisecond)
+			}
+			if r := atomic.LoadInt64(&ran); r < int64(burst) {
+				atomic.AddInt64(&lostBurst, int64(burst)-r)
+			}
+		}(i)
+	}
+	wg.Wait()
+	return lostDelayed, lostBurst, early
+}
+
+const qsClean = "lost=0 burst:lost-delayed=0,lost=0,early=0"
+
 func runQS(t []string) string {
 	if len(t) != 3 {
 		return "bad-op"
@@ -185,7 +245,9 @@ func runQS(t []string) string {
 	if e1 != nil || e2 != nil || n < 0 || n > 100000000 {
 		return "bad-op"
 	}
-	return fmt.Sprintf("lost=%d", queueStress(n, spin))
+	reps := n / 4000
+	ld, lb, early := queueBurst(reps, 20)
+	return fmt.Sprintf("lost=%d burst:lost-delayed=%d,lost=%d,early=%d", queueStress(n, spin), ld, lb, early)
 }
 
 // runTimerCase plays one scenario. The result is a function of the scenario only, provided the
@@ -224,7 +286,7 @@ func timerAttempt(t []string) (string, bool) {
 	var evs []string
 	collect := func() { evs = append(evs, strings.ReplaceAll(s.takeEvents(), "-", "")) }
 	wait := func(n int) bool {
-		deadline := time.Now().Add(60 * time.Second)
+		deadline := time.Now().Add(30 * time.Second)
 		for !fq.allRan(n) {
 			if time.Now().After(deadline) {
 				return false
@@ -239,7 +301,7 @@ func timerAttempt(t []string) (string, bool) {
 			fail = "gen-error"
 		}
 		if w := nacache.VerifCachedWorkload(s.sc); w != nil {
-			fq.setExpiry(w.ExpireTime)
+			fq.setExpiry(leafNotAfter(w)) // the leaf's NotAfter, not the client's bookkeeping
 		}
 		collect()
 	}
@@ -253,6 +315,11 @@ func timerAttempt(t []string) (string, bool) {
 	}
 	if fq.ranCount() != 0 {
 		return "inconclusive", false // a task ran during the sequential prefix: the machine stalled > 1 s
+	}
+	if fq.dueAfterExpiry() {
+		// the renewal is scheduled for after the NotAfter of the leaf it renews: that is a verdict about
+		// registerSecret / rotateTime / the client's idea of the expiry, not about the queue; do not wait
+		return "scheduled-after-expiry", true
 	}
 	if !wait(n) && fail == "" {
 		fail = "timeout"
@@ -316,34 +383,59 @@ func execTimer(in, outp string) {
 func oracleTimer(in, outp string) {
 	out := wire.Create(outp)
 	defer out.Close()
+	var lines [][]string
 	for _, t := range wire.ReadLines(in) {
-		if t[0] == "qs" {
-			if r := runQS(t); r != "lost=0" {
-				out.Line("FAIL", "queue-task-stranded", wire.Enc(join(t)), wire.Enc(r))
-			} else {
-				out.Line("OK")
+		if t[0] == "qs" || t[0] == "rt" {
+			lines = append(lines, t)
+		}
+	}
+	res := make([]string, len(lines))
+	sem := make(chan struct{}, 8)
+	var wg sync.WaitGroup
+	for i, t := range lines {
+		if t[0] == "qs" { // alone, before the timer cases start
+			res[i] = "OK"
+			if r := runQS(t); r != qsClean {
+				res[i] = "FAIL queue-task-stranded " + wire.Enc(join(t)) + " " + wire.Enc(r)
 			}
 			continue
 		}
-		if t[0] != "rt" {
-			continue
-		}
-		r := runTimerCase(t)
-		want := 2
-		if len(t) == 5 && t[4] == "1" {
-			want = 3
-		}
-		switch {
-		case r == "timeout":
-			out.Line("FAIL", "rotation-never-fired", wire.Enc(join(t)))
-		case strings.Contains(r, "early=1"):
-			out.Line("FAIL", "rotation-early", wire.Enc(join(t)), wire.Enc(r))
-		case strings.Contains(r, "late=1"):
-			out.Line("FAIL", "rotation-after-expiry", wire.Enc(join(t)), wire.Enc(r))
-		case !strings.Contains(r, fmt.Sprintf("calls=%d ", want)):
-			out.Line("FAIL", "rotation-ca-calls", wire.Enc(join(t)), wire.Enc(r))
-		default:
-			out.Line("OK")
-		}
+		wg.Add(1)
+		go func(i int, t []string) {
+			defer wg.Done()
+			sem <- struct{}{}
+			defer func() { <-sem }()
+			defer func() {
+				if e := recover(); e != nil {
+					res[i] = "FAIL crash " + wire.Enc(join(t))
+				}
+			}()
+			res[i] = timerVerdict(t)
+		}(i, t)
 	}
+	wg.Wait()
+	for _, r := range res {
+		out.Line(r)
+	}
+}
+
+func timerVerdict(t []string) string {
+	r := runTimerCase(t)
+	want := 2
+	if len(t) == 5 && t[4] == "1" {
+		want = 3
+	}
+	switch {
+	case r == "scheduled-after-expiry":
+		return "FAIL rotation-scheduled-after-expiry " + wire.Enc(join(t))
+	case r == "timeout":
+		return "FAIL rotation-never-fired " + wire.Enc(join(t))
+	case strings.Contains(r, "early=1"):
+		return "FAIL rotation-early " + wire.Enc(join(t)) + " " + wire.Enc(r)
+	case strings.Contains(r, "late=1"):
+		return "FAIL rotation-after-expiry " + wire.Enc(join(t)) + " " + wire.Enc(r)
+	case !strings.Contains(r, fmt.Sprintf("calls=%d ", want)):
+		return "FAIL rotation-ca-calls " + wire.Enc(join(t)) + " " + wire.Enc(r)
+	}
+	return "OK"
 }
